@@ -326,10 +326,30 @@ def extra_families(res, tier, rnd):
                       P.DO("restore-terminal"), P.DO("sleep", us=30000), P.W("idle"), P.DO("send", msg=P.U(5)), P.W("idle"), P.DO("kill"), P.W("returned")]
             scs.append(P.scenario(len(scs), script, opts={"fps": 120, "filter": flt}, parallel_ok=True, watchdog_ms=4000))
             metas.append({"family": "released-mode", "kind": kind, "verdict": verdict})
+    for mode in ("keep", "replace"):
+        # messages (and replacements) whose value is a typed nil or an error: a verdict like any other, not a "nil" verdict
+        vals = [P.B("tn-slice"), P.B("tn-map"), P.B("tn-ptr"), P.B("tn-func"), P.B("errmsg", w=4)]
+        keys = ["tn:slice", "tn:map", "tn:ptr", "tn:func", "err:4"]
+        if mode == "keep":
+            flt = {}
+            sends = [P.DO("send", msg=v) for v in vals]
+        else:
+            flt = {"replace": {"u:%d" % (70 + i): v for i, v in enumerate(vals)}}
+            sends = [P.DO("send", msg=P.U(70 + i)) for i in range(len(vals))]
+        script = [P.W("started"), P.W("idle")] + sends + [P.W("idle"), P.DO("kill"), P.W("returned")]
+        scs.append(P.scenario(len(scs), script, opts={"fps": 120, "filter": flt}, parallel_ok=True, watchdog_ms=4000))
+        metas.append({"family": "unusual-values", "mode": mode, "keys": keys})
     results, _ = P.run_scenarios("C16_extra", scs, timeout=600)
     bad = []
     for m, r in zip(metas, results):
         ev = r["events"]
+        if m["family"] == "unusual-values" and not (P.machinery_problem(r) or not r["run_returned"]):
+            ub = [e.get("key") for e in ev if e["ev"] == "UpdateBegin"]
+            got = [k for k in ub if k.startswith("tn:") or k.startswith("err:")]
+            if got != m["keys"]:
+                bad.append(("C16:unusual-values", "the filter %s messages whose values are typed nils / an error (%s); Update received %s" %
+                            ("kept" if m["mode"] == "keep" else "returned as replacements", m["keys"], got), {"meta": m, "updates": ub}))
+            continue
         if m["family"] == "released-mode" and not (P.machinery_problem(r) or not r["run_returned"]):
             fb = [e for e in ev if e["ev"] == "FilterBegin" and e.get("key") == "b:" + m["kind"]]
             ub = [e.get("key") for e in ev if e["ev"] == "UpdateBegin"]
